@@ -215,7 +215,7 @@ def check_c11(pid, tier):
 def check_c10(pid, tier):
     from harness import pairs
     check_pairs(pid, tier, "hashpairs", lambda t, s: (pairs.hash_pairs(t, s, core.NCPU), []), "hash seeds",
-                (["A", "W"], ["I_C10_det"], []))
+                (["A", "W", "G"], ["I_C10_det"], []))
 
 
 PURE_RE = __import__("re").compile(r'^<<"(PURE|PUREDONE)", (.*)>>$')
